@@ -127,3 +127,189 @@ theorem filterMap_elemOf (self : List (Str × Q)) (h : ∀ it ∈ self, ReprOk i
     rw [ih (fun x hx => h x (by simp [hx]))]
 
 end Wz.Accept
+
+/-! ### every quality in `[1e-4, 1]` (and 0) reprints: the general theorem -/
+
+namespace Wz.Accept
+open Wz
+
+theorem norm_go_spec (n s : Nat) :
+    (Q.norm.go n s).num * 10 ^ s = n * 10 ^ (Q.norm.go n s).scale ∧
+    ((Q.norm.go n s).scale > 0 → (Q.norm.go n s).num % 10 ≠ 0) ∧ (Q.norm.go n s).scale ≤ s := by
+  induction s generalizing n with
+  | zero => simp [Q.norm.go]
+  | succ s ih =>
+    unfold Q.norm.go
+    by_cases h : (n % 10 == 0) = true
+    · simp only [h, ↓reduceIte]
+      obtain ⟨h1, h2, h3⟩ := ih (n / 10)
+      refine ⟨?_, h2, by omega⟩
+      have hdiv : n / 10 * 10 = n := by
+        have : n % 10 = 0 := by simpa using h
+        omega
+      generalize Q.norm.go (n / 10) s = r at h1
+      calc r.num * 10 ^ (s + 1) = (r.num * 10 ^ s) * 10 := by rw [Nat.pow_succ, Nat.mul_assoc]
+        _ = (n / 10 * 10 ^ r.scale) * 10 := by rw [h1]
+        _ = (n / 10 * 10) * 10 ^ r.scale := by rw [Nat.mul_right_comm]
+        _ = n * 10 ^ r.scale := by rw [hdiv]
+    · have h' : (n % 10 == 0) = false := by simpa using h
+      simp only [h', Bool.false_eq_true, ↓reduceIte]
+      refine ⟨by simp, fun _ => by simpa using h, by simp⟩
+
+theorem norm_spec (q : Q) :
+    q.norm.num * 10 ^ q.scale = q.num * 10 ^ q.norm.scale ∧
+    (q.norm.scale > 0 → q.norm.num % 10 ≠ 0) := by
+  obtain ⟨h1, h2, _⟩ := norm_go_spec q.num q.scale
+  exact ⟨h1, h2⟩
+
+theorem digitsVal_eq_ofDigitChars (l : Str) : digitsVal l = Nat.ofDigitChars 10 l 0 := rfl
+
+theorem isDigit_isDigitA {c : Char} (h : c.isDigit = true) : isDigitA c = true := by
+  simp only [Char.isDigit, Bool.and_eq_true, decide_eq_true_eq] at h
+  simp only [isDigitA, Bool.and_eq_true, decide_eq_true_eq]
+  exact ⟨h.1, h.2⟩
+
+theorem isDigit_isTokChar {c : Char} (h : c.isDigit = true) : isTokChar c = true := by
+  simp [isTokChar, Char.isAlphanum, h]
+
+theorem toDigits_digits (n : Nat) : ∀ c ∈ Nat.toDigits 10 n, c.isDigit = true :=
+  fun _ hc => Nat.isDigit_of_mem_toDigits (by decide) (by decide) hc
+
+/-- the decimal text of a quality strictly between 0 and 1 whose normal form has `scale` fraction
+digits: `0.` followed by the numerator left-padded with zeros -/
+theorem parseQ_padded (num scale : Nat) (hs : 0 < scale) (hlt : num < 10 ^ scale) :
+    parseQ ('0' :: '.' :: padZeros scale (toString num).toList) = some ⟨num, scale⟩ ∧
+    isTokenB ('0' :: '.' :: padZeros scale (toString num).toList) = true := by
+  have hd : (toString num).toList = Nat.toDigits 10 num := by simp
+  have hlen : (Nat.toDigits 10 num).length ≤ scale := (Nat.length_toDigits_le_iff (by decide) hs).mpr hlt
+  have hfr : ∀ c ∈ padZeros scale (toString num).toList, c.isDigit = true := by
+    intro c hc
+    rw [hd] at hc
+    simp only [padZeros, List.mem_append, List.mem_replicate] at hc
+    rcases hc with ⟨_, rfl⟩ | hc
+    · decide
+    · exact toDigits_digits num c hc
+  have hfl : (padZeros scale (toString num).toList).length = scale := by
+    rw [hd]; simp [padZeros]; omega
+  have hval : digitsVal (['0'] ++ padZeros scale (toString num).toList) = num := by
+    rw [hd, digitsVal_eq_ofDigitChars, padZeros, Nat.ofDigitChars_append, Nat.ofDigitChars_append]
+    have e0 : Nat.ofDigitChars 10 ['0'] 0 = 0 := by decide
+    rw [e0, Nat.ofDigitChars_replicate_zero, Nat.mul_zero, Nat.ofDigitChars_ten_toDigits]
+  constructor
+  · apply parseQ_complete
+    refine ⟨false, ['0'], padZeros scale (toString num).toList, by simp, ?_, ?_, ?_, ?_, ?_, by simp⟩
+    · intro c hc; simp at hc; subst hc; decide
+    · intro c hc; exact isDigit_isDigitA (hfr c hc)
+    · have hne : (padZeros scale (toString num).toList).isEmpty = false := by
+        cases h : padZeros scale (toString num).toList with
+        | nil => rw [h] at hfl; simp at hfl; omega
+        | cons _ _ => rfl
+      simp only [Bool.false_eq_true, ↓reduceIte, List.nil_append, hne, List.cons_append]
+    · rw [hval, hfl]
+    · show num ≤ 10 ^ scale
+      omega
+  · rw [isTokenB_iff]
+    refine ⟨by simp, ?_⟩
+    intro c hc
+    rcases List.mem_cons.mp hc with rfl | hc
+    · decide
+    · rcases List.mem_cons.mp hc with rfl | hc
+      · decide
+      · exact isDigit_isTokChar (hfr c hc)
+
+/-- **General reprint theorem.** Every quality `q ≤ 1` that `to_header` can print in positional
+notation (`qRepr q ≠ none`: zero, or at least `1e-4`) prints as a token that `_q_value_re` and the
+range check accept and that denotes the same number. -/
+theorem reprOk_of_le_one (q : Q) (hle : q.le Q.one = true) (hr : (qRepr q).isSome = true) :
+    ReprOk q = true := by
+  unfold ReprOk
+  cases hone : q.isOne with
+  | true => rfl
+  | false =>
+    simp only [Bool.false_or]
+    obtain ⟨hv, hmod⟩ := norm_spec q
+    have hle' : q.num ≤ 10 ^ q.scale := by simpa [Q.le, Q.one] using hle
+    -- the normal form is at most one as well
+    have hnle : q.norm.num ≤ 10 ^ q.norm.scale := by
+      have h1 : q.norm.num * 10 ^ q.scale ≤ 10 ^ q.norm.scale * 10 ^ q.scale := by
+        rw [hv, Nat.mul_comm]; exact Nat.mul_le_mul_left _ hle'
+      exact Nat.le_of_mul_le_mul_right h1 (Nat.pow_pos (by decide))
+    unfold qRepr at hr ⊢
+    by_cases h0 : (q.norm.num == 0) = true
+    · -- zero prints as 0.0
+      simp only [h0, ↓reduceIte]
+      have hz : q.norm.num = 0 := by simpa using h0
+      have hq0 : q.num = 0 := by
+        rw [hz] at hv
+        have : q.num * 10 ^ q.norm.scale = 0 := by omega
+        rcases Nat.mul_eq_zero.mp this with h | h
+        · exact h
+        · exact absurd h (Nat.pos_iff_ne_zero.mp (Nat.pow_pos (by decide)))
+      have hp : parseQ ['0', '.', '0'] = some ⟨0, 1⟩ := by decide
+      have ht : isTokenB ['0', '.', '0'] = true := by decide
+      simp [hp, ht, Q.equiv, Q.le, hq0]
+    · have h0' : (q.norm.num == 0) = false := by simpa using h0
+      simp only [h0', Bool.false_eq_true, ↓reduceIte] at hr ⊢
+      by_cases hs : (q.norm.scale == 0) = true
+      · -- scale 0 and not zero: the quality is 1, excluded
+        exfalso
+        have hs0 : q.norm.scale = 0 := by simpa using hs
+        have hn1 : q.norm.num = 1 := by
+          have : q.norm.num ≠ 0 := by simpa using h0'
+          rw [hs0] at hnle; simp at hnle; omega
+        rw [hn1, hs0] at hv
+        simp only [Nat.one_mul, Nat.pow_zero, Nat.mul_one] at hv
+        have : q.isOne = true := by
+          simp [Q.isOne, Q.le, Q.one, hv]
+        rw [this] at hone; cases hone
+      · have hs' : (q.norm.scale == 0) = false := by simpa using hs
+        simp only [hs', Bool.false_eq_true, ↓reduceIte] at hr ⊢
+        have hspos : 0 < q.norm.scale := by
+          have : q.norm.scale ≠ 0 := by simpa using hs'
+          omega
+        by_cases hx : (decide (q.norm.scale > 4) && decide (q.norm.num * 10000 < 10 ^ q.norm.scale)) = true
+        · simp [hx] at hr
+        · have hx' : (decide (q.norm.scale > 4) && decide (q.norm.num * 10000 < 10 ^ q.norm.scale)) = false := by
+            simpa using hx
+          simp only [hx', Bool.false_eq_true, ↓reduceIte]
+          have hlt : q.norm.num < 10 ^ q.norm.scale := by
+            rcases Nat.lt_or_ge q.norm.num (10 ^ q.norm.scale) with h | h
+            · exact h
+            · exfalso
+              have heq : q.norm.num = 10 ^ q.norm.scale := by omega
+              have := hmod hspos
+              rw [heq] at this
+              obtain ⟨k, hk⟩ : ∃ k, q.norm.scale = k + 1 := ⟨q.norm.scale - 1, by omega⟩
+              rw [hk, Nat.pow_succ] at this
+              simp at this
+          obtain ⟨hp, ht⟩ := parseQ_padded q.norm.num q.norm.scale hspos hlt
+          simp only [hp, ht, Bool.true_and]
+          simp only [Q.equiv, Q.le, Bool.and_eq_true, decide_eq_true_eq]
+          constructor <;> omega
+
+/-- … and `to_header` leaves positional notation only for a non-zero quality below `1e-4` -/
+theorem qRepr_none_iff (q : Q) :
+    qRepr q = none ↔ q.norm.num ≠ 0 ∧ 4 < q.norm.scale ∧ q.norm.num * 10000 < 10 ^ q.norm.scale := by
+  unfold qRepr
+  by_cases h0 : (q.norm.num == 0) = true
+  · have : q.norm.num = 0 := by simpa using h0
+    simp [h0, this]
+  · have h0' : (q.norm.num == 0) = false := by simpa using h0
+    have hne : q.norm.num ≠ 0 := by simpa using h0'
+    simp only [h0', Bool.false_eq_true, ↓reduceIte]
+    by_cases hs : (q.norm.scale == 0) = true
+    · have : q.norm.scale = 0 := by simpa using hs
+      simp [hs, this]
+    · have hs' : (q.norm.scale == 0) = false := by simpa using hs
+      simp only [hs', Bool.false_eq_true, ↓reduceIte]
+      by_cases hx : (decide (q.norm.scale > 4) && decide (q.norm.num * 10000 < 10 ^ q.norm.scale)) = true
+      · simp only [hx, ↓reduceIte, true_iff]
+        simp only [Bool.and_eq_true, decide_eq_true_eq] at hx
+        exact ⟨hne, hx.1, hx.2⟩
+      · have hx' : (decide (q.norm.scale > 4) && decide (q.norm.num * 10000 < 10 ^ q.norm.scale)) = false := by
+          simpa using hx
+        simp only [hx', Bool.false_eq_true, ↓reduceIte, reduceCtorEq, false_iff]
+        intro ⟨_, h1, h2⟩
+        simp [h1, h2] at hx'
+
+end Wz.Accept
